@@ -15,7 +15,7 @@ RULE = ('Oracle on the implementation: for each abstract document of the C04 spe
 TRUSTED_BASE = [
     'Coq 8.16.1 kernel; vm_compute for the table theorems; no axioms',
     'translators gen_tables_xsl.py (keyword choose, template matches), gen_grammar.py, gen_tables_types.py',
-    'libxslt running akn_text.xsl is NOT modelled beyond its string templates: the round trip is decided by running the implementation',
+    'hand model Model/UnparseDoc.v of every template of akn_text.xsl (one namespace, no comments/PIs), tied to libxslt running the stylesheet by the unp stage; the round trip itself is decided by running the implementation',
     'tools/harness/absdoc.py generates the documents; Python oracle',
 ]
 ASSUMPTIONS = ['domain: documents the parser produces from texts over the documented vocabulary (C04 texts); documents from forgiving-mode input (C01 texts) '
@@ -125,9 +125,26 @@ def xsl_cases(ctx, n):
     from props import C06
     return C06.xsl_cases(ctx, n)
 
+def _trees(args):
+    seed, root, depth = args
+    d = make(seed, root, depth)
+    if d is None: return []
+    try:
+        x = impl.parser().parse_to_xml(d[0], root)
+    except Exception:
+        return []
+    rng = random.Random(seed)
+    els = [e for e in x.iter() if isinstance(e.tag, str) and e.tag != NS + 'meta' and not any(a.tag == NS + 'meta' for a in e.iterancestors())]
+    out = [x] + [copy.deepcopy(e) for e in rng.sample(els, min(3, len(els)))]
+    return [xmlsx.norm_sx(xmlsx.to_sx(t)) for t in out]
+
 def correspondence(ctx):
     from props import C06
     C06.stage_xslstr(ctx, C06.xsl_cases(ctx, ctx.n(600, 12000)))
+    # the whole unparser: documents of the specification generator and random elements of them as fragments
+    js = jobs(ctx, ctx.n(250, 8000))
+    trees = [t for l in impl.pmap(_trees, js, chunk=8) for t in l]
+    stages.stage_unp(ctx, trees)
 
 def search(ctx, budget):
     js = jobs(ctx, ctx.n(500, 20000) * budget)
@@ -168,10 +185,11 @@ def replay(obj):
 
 LEVEL_TEXT = ('Partial. Proved on the tables regenerated from akn_text.xsl, akn.peg and types.py: every element the hierarchical template of the stylesheet '
               'matches is printed with a keyword that the grammar reads and that the synonym table maps back to the same element, and every hierarchical '
-              'or speech keyword of the grammar gives an element that template matches (C05_unparsed_keyword_parses_back, C05_keywords_have_templates). '
-              'The round trip itself runs through libxslt and is decided by the oracle on the implementation: identity of parse(unparse(x)) with eIds, '
+              'or speech keyword of the grammar gives an element that template matches (C05_unparsed_keyword_parses_back, C05_keywords_have_templates); the Gallina model of the unparser has a branch for '
+              'exactly the elements the stylesheet has templates for (C05_templates_are_modelled). '
+              'The round trip itself is not a theorem: it is decided by the oracle on the implementation: identity of parse(unparse(x)) with eIds, '
               'a no-op second round trip, and fragment round trips for every element kind, on sampled documents of the C04 specification generator x seven '
-              'roots; the stylesheet\'s string templates are tied to Model/Unparse.v by the xslstr stage. Documents from forgiving-mode input are not '
+              'roots; the stylesheet is modelled in full (Model/Unparse.v, Model/UnparseDoc.v) and tied to libxslt by the xslstr and unp stages. Documents from forgiving-mode input are not '
               'claimed (listed findings).')
-LEVEL_NOTE = 'Trusted: Coq kernel (vm_compute table checks); translators; libxslt + akn_text.xsl templates beyond the string functions are exercised, not modelled.'
+LEVEL_NOTE = 'Trusted: Coq kernel (vm_compute table checks); translators; hand model of the stylesheet tied by sampling (unp, xslstr stages).'
 TECHNIQUE = 'Rocq proof (stylesheet/grammar/synonym table theorems) + round-trip oracle on sampled generated documents and fragments + differential run of the stylesheet string templates against the Gallina model'
